@@ -68,17 +68,28 @@ class Gate:
             self.waiters.append(fut)
             try:
                 await fut
+            except BaseException:
+                # cancelled after release() had already chosen this waiter: hand the wake-up on, or everybody else sleeps for ever
+                if fut in self.waiters:
+                    self.waiters.remove(fut)
+                if fut.done() and not fut.cancelled():
+                    self._wake()
+                raise
             finally:
                 if fut in self.waiters:
                     self.waiters.remove(fut)
 
-    def release(self, sess):
-        if self.owner is sess:
-            self.owner = None
+    def _wake(self):
+        if self.owner is None:
             for fut in self.waiters:
                 if not fut.done():
                     fut.set_result(None)
                     break
+
+    def release(self, sess):
+        if self.owner is sess:
+            self.owner = None
+            self._wake()
 
 
 class Session:
